@@ -31,6 +31,8 @@ ERRNO_BY_OP = {
     'write': ('EIO', 'ENOSPC', 'EDQUOT', 'EACCES', 'EFBIG'),
     'close': ('EIO', 'ENOSPC', 'EDQUOT'),
     'open-text': ('EIO', 'EACCES', 'EMFILE'),
+    'remove': ('EIO', 'EACCES', 'EPERM', 'EBUSY', 'EROFS', 'EISDIR'),
+    'rename': ('EIO', 'EACCES', 'EPERM', 'EBUSY', 'EROFS', 'EXDEV', 'ENOSPC'),
 }
 
 
@@ -49,6 +51,7 @@ class Disk:
     def __init__(self):
         self.files = {}
         self.texts = {}
+        self.path_state = {}      # path -> 'directory' | 'readonly_dir' | 'unreadable' (persistent state of the cache *path*, not of bytes)
 
     def snapshot(self):
         return {k: bytes(v.data) for k, v in self.files.items()}
@@ -206,6 +209,13 @@ class Proc:
         else:
             self.ropen.add(name)
         self.op('open-w' if writing else 'open-r')
+        st = self.disk.path_state.get(name)
+        if st == 'directory':
+            self.fired.append([self.n, 'open', 'path-state', 'EISDIR'])
+            raise IsADirectoryError(_errno.EISDIR, os.strerror(_errno.EISDIR), name)
+        if (st == 'readonly_dir' and writing) or (st == 'unreadable' and not writing):
+            self.fired.append([self.n, 'open', 'path-state', 'EACCES'])
+            raise PermissionError(_errno.EACCES, os.strerror(_errno.EACCES), name)
         if 'b' not in mode:
             raise AssertionError('lark opens its cache in binary mode; got %r' % mode)
         if not writing:
@@ -230,7 +240,33 @@ class Proc:
         return io.BufferedWriter(raw, buffer_size=max(1, self.bufsize))
 
     def exists(self, name):
-        return str(name) in self.disk.files or str(name) in self.disk.texts
+        return str(name) in self.disk.files or str(name) in self.disk.texts or str(name) in self.disk.path_state
+
+    def remove(self, name):
+        name = str(name)
+        self.wopen.add(name)
+        self.op('remove')
+        st = self.disk.path_state.get(name)
+        if st == 'directory':
+            self.fired.append([self.n, 'remove', 'path-state', 'EISDIR'])
+            raise IsADirectoryError(_errno.EISDIR, os.strerror(_errno.EISDIR), name)
+        if st == 'readonly_dir':
+            self.fired.append([self.n, 'remove', 'path-state', 'EACCES'])
+            raise PermissionError(_errno.EACCES, os.strerror(_errno.EACCES), name)
+        if name not in self.disk.files:
+            raise FileNotFoundError(_errno.ENOENT, os.strerror(_errno.ENOENT), name)
+        del self.disk.files[name]
+
+    def rename(self, src, dst):
+        src, dst = str(src), str(dst)
+        self.wopen.add(dst)
+        self.op('rename')
+        if self.disk.path_state.get(dst) in ('directory', 'readonly_dir'):
+            self.fired.append([self.n, 'rename', 'path-state', 'EACCES'])
+            raise PermissionError(_errno.EACCES, os.strerror(_errno.EACCES), dst)
+        if src not in self.disk.files:
+            raise FileNotFoundError(_errno.ENOENT, os.strerror(_errno.ENOENT), src)
+        self.disk.files[dst] = self.disk.files.pop(src)
 
     def reading_cache(self):
         return any(not h._w for h in self.open_handles)
@@ -303,6 +339,48 @@ class _OsShim:
         return getattr(os, k)
 
 
+class _CachePathShim(_OsPathShim):
+    """os.path as lark.lark sees it: cache paths live on the simulated disk"""
+
+    def _sim(self, p):
+        pr = self._f.proc()
+        return pr is not None and isinstance(p, str) and (p in pr.disk.files or p in pr.disk.path_state or p in pr.wopen or p in pr.ropen)
+
+    def exists(self, p):
+        return self._f.proc().exists(p) if self._sim(p) else os.path.exists(p)
+
+    def isfile(self, p):
+        return (p in self._f.proc().disk.files and self._f.proc().disk.path_state.get(p) != 'directory') if self._sim(p) else os.path.isfile(p)
+
+    def isdir(self, p):
+        return (self._f.proc().disk.path_state.get(p) == 'directory') if self._sim(p) else os.path.isdir(p)
+
+    def getsize(self, p):
+        return len(self._f.proc().disk.files[p].data) if self._sim(p) and p in self._f.proc().disk.files else os.path.getsize(p)
+
+
+class _LarkOsShim:
+    """`os` as lark.lark sees it: the unchanged code only uses os.path.dirname / join in Lark.open, but a change that removes,
+    renames or stats the cache file must meet the simulated disk (and its faults), not the real one"""
+
+    def __init__(self, facade):
+        self._f = facade
+        self.path = _CachePathShim(facade)
+
+    def __getattr__(self, k):
+        return getattr(os, k)
+
+    def remove(self, p, *a, **kw):
+        return self._f.proc().remove(p)
+
+    unlink = remove
+
+    def rename(self, a, b, *x, **kw):
+        return self._f.proc().rename(a, b)
+
+    replace = rename
+
+
 class _MainlessModules(dict):
     pass
 
@@ -349,8 +427,9 @@ def install(facade):
             return facade.proc().text_open(name, *a, **kw)
         return _real_open(name, *a, **kw)
 
-    saved = (LL.FS, LG.__dict__.get('open'), LG.os, LL.sys, LL.__dict__.get('open'), LG.sys)
+    saved = (LL.FS, LG.__dict__.get('open'), LG.os, LL.sys, LL.__dict__.get('open'), LG.sys, LL.os)
     LL.FS = facade
+    LL.os = _LarkOsShim(facade)
     LG.open = sim_open
     LG.os = _OsShim(facade)
     LG.sys = _LGSysShim(facade)
@@ -364,6 +443,7 @@ def install(facade):
         else:
             LG.open = saved[1]
         LG.os = saved[2]
+        LL.os = saved[6]
         LG.sys = saved[5]
         LL.sys = saved[3]
         if saved[4] is None:
